@@ -96,11 +96,13 @@ class Names(Instance):
         if self.long_base is not None:
             return []
         out = []
-        for _ in range(20):
+        while len(out) < 20:
             nc = 2 + rnd.randrange(self.nc - 1); c = {"nc2": nc - 2}
             for i in range(nc):
                 n = rnd.randrange(self.maxlen + 1)
                 c[f"n{i}"] = n; c[f"name{i}"] = [rnd.choice(self.alpha) for _ in range(n)]
+            if len({tuple(c[f"name{i}"]) for i in range(nc)}) < nc:
+                continue        # the native side registers contigs through register_sample_contig, which merges identical names of one sample
             out.append(c)
         return out
 
